@@ -588,7 +588,9 @@ impl<'a> ParserState<'a> {
             let token = self.expect_token(context, A2lTokenType::String)?;
             let mut text = self.get_token_text(token);
 
-            if text.len() >= 2 && text.starts_with('\"') {
+            // a string token of the tokenizer is enclosed in quotes; the raw text of an A2ML block is a
+            // string token too and may start with a quote without ending in one
+            if text.len() >= 2 && text.starts_with('\"') && text.ends_with('\"') {
                 text = &text[1..text.len() - 1];
             }
 
